@@ -94,7 +94,7 @@ def oracle(res, case, sk, ops, impl, live, tmp, keypath):
             if sf is not None and o1 is not None and sf["s"] not in ("virtual", "method"):
                 if key not in o1["defaults"]:
                     res.violate("C12:reset-still-defined", "reset did not restore the not-user-defined status", dict(case, at=n, op=op))
-                if sf["s"] == "leaf" and "v" in s1 and sf["field"]["k"] != "challenge":
+                if sf["s"] == "leaf" and "v" in s1 and sf["field"]["k"] != "challenge" and not F.nonidempotent_container(sf["field"]):
                     d = sf.get("default")
                     want = F.enc_val(d["v"]) if d else {"t": "none"}
                     if F.canon_val(s1["v"]) != F.canon_val(want):
